@@ -3,4 +3,5 @@ EXTENDS Cluster
 MCSlotOf == [k \in {"a1", "a2", "b1"} |-> IF k = "b1" THEN "B" ELSE "A"]
 MCSlotOf2 == [k \in {"a1", "b1"} |-> IF k = "b1" THEN "B" ELSE "A"]
 MCSlotOf3 == [k \in {"a1", "a2"} |-> "A"]
+MCSlotOf4 == [k \in {"a1"} |-> "A"]
 ====
